@@ -166,6 +166,15 @@ def run(cx):
             r.check(ok, "ifexp(String,numeric)-needs-conversion", (pm, inf), f"`{a} if c else {b}` is typed {out!r} and emitted as a plain C++ ?: with operands of both kinds: there is no common type, the form must be rejected or converted")
         else:
             r.check(out.kind == "raise" or geq(out.value, j), f"ifexp({a},{b})", (pm, inf), f"`{a} if c else {b}` is typed {out!r}; Python yields {j}")
+            # the same with a constant environment that claims to know the test variable: that environment is flow-insensitive
+            # (a loop or branch may have changed c since), so the other arm can still be taken at run time
+            for cval in (0, 1, True, False):
+                node_ = ast.parse("x if c else y", mode="eval").body
+                try:
+                    out_c = it().call(inf, [node_, {"x": a, "y": b, "c": "int"}, {}, {}, {}, {"vars": {"c": cval}}])
+                except dl.Unsupported as e:
+                    raise AnalysisError(f"_infer_expr_type left the evaluable subset: {e}")
+                r.check(out_c.kind == "raise" or geq(out_c.value, j), f"ifexp({a},{b})/test-variable-bound-in-the-constant-environment", (pm, inf), f"`{a} if c else {b}` with c recorded as {cval!r} in the constant environment is typed {out_c!r}; the environment may be stale (c changed in a loop/branch), Python can yield {j}")
         for opn, tok in (("And", "and"), ("Or", "or")):
             out = infer(f"x {tok} y", {"x": a, "y": b})
             j2 = join(a, b)
@@ -399,6 +408,9 @@ def run(cx):
                 methods.add(v)
             elif isinstance(n.ops[0], ast.In) and isinstance(v, (set, frozenset, tuple, list)):
                 methods |= {x for x in v if isinstance(x, str)}
+    # ... or kept in a table keyed by the accessor name: every accessor-like string constant of the parser is a candidate
+    # (whether the translator accepts it is decided by evaluating it below)
+    methods |= {n.value for n in ast.walk(pm.tree) if isinstance(n, ast.Constant) and isinstance(n.value, str) and _re.fullmatch(r"(get_|is_|read|measure_)[a-z_]*", n.value)}
     methods -= {"append", "remove"}
     # registry -> device kind (confirmed by reading the declaration handlers of _parse_simple_lines)
     REG = {"led_names": "Led", "buzzer_names": "Buzzer", "dc_motor_names": "DCMotor", "ultrasonic_names": "Ultrasonic", "button_names": "Button",
